@@ -300,6 +300,13 @@ pub fn multinomial_index(probs: &[f64], k53: u64) -> usize {
     crate::solve::verif_multinomial(probs, &mut VerifRng::Fixed(k53 << 11))
 }
 
+/// Outcome counts of `draws` fresh draws (one per pass, reset in between) of the cached chance
+/// sampler the sampled solvers use, built for `probs`. Call between [start] with seeded sampling
+/// and [finish]: the generator is then a pure function of (seed, pass).
+pub fn chance_sampler_counts(probs: &[f64], draws: u64) -> Vec<u64> {
+    crate::solve::verif_chance_counts(probs, draws)
+}
+
 /// Called where a decision node is processed
 pub fn visit(role: u8, player: crate::PlayerNum, infoset: usize, node: usize) {
     if flags() & LOG_VISIT != 0 {
